@@ -81,7 +81,7 @@ impl Check for Numbers {
                 }
                 // P2: JSON output -> input
                 let text = serde_json::to_string(&SerializableValue::Number(x).to_json()).unwrap();
-                let back = serde_json::from_str::<serde_json::Value>(&text).map(|v| SerializableValue::from_json(&v));
+                let back = serde_json::from_str::<serde_json::Value>(&text).map(|v| crate::blots::from_json(&v));
                 match back {
                     Ok(SerializableValue::Number(y)) if y.to_bits() == x.to_bits() => {}
                     other => fail!(
@@ -106,7 +106,7 @@ impl Check for Numbers {
                 let s2 = Sess::new();
                 let reloaded = serde_json::from_str::<serde_json::Value>(&jtext)
                     .map_err(|e| e.to_string())
-                    .and_then(|v| SerializableValue::from_json(&v).to_value(&mut s2.heap.borrow_mut()).map_err(|e| e.to_string()));
+                    .and_then(|v| crate::blots::from_json(&v).to_value(&mut s2.heap.borrow_mut()).map_err(|e| e.to_string()));
                 match reloaded {
                     Ok(v) => {
                         s2.bind_value("f", v);
